@@ -3,5 +3,6 @@ EXTENDS SolverObs
 MCProblems == {[name |-> "uniform_solid", core |-> "solid", uniformCore |-> TRUE],
                [name |-> "two_solid", core |-> "solid", uniformCore |-> TRUE],
                [name |-> "liquid_core", core |-> "liquid", uniformCore |-> TRUE],
-               [name |-> "solid_liquid_solid", core |-> "solid", uniformCore |-> TRUE]}
+               [name |-> "solid_liquid_solid", core |-> "solid", uniformCore |-> TRUE],
+               [name |-> "ocean_world", core |-> "solid", uniformCore |-> TRUE]}
 =============================================================================
